@@ -303,7 +303,12 @@ def verify_unit(unit_name, repo=None, use_cache=True, keep=True, canary=True):
     res.failures = failures
     res.verus_verified = vr.get('verified')
     res.verus_errors = vr.get('errors')
-    if hard or vr.get('encountered-vir-error'):
+    infra = [f for f in failures if not f.get('fn')]
+    if infra and not hard:
+        res.status = 'undecided'
+        res.reason = 'proof-infrastructure failure (lemma or prelude item does not verify): ' + ' | '.join((f['message'] + ' ' + str(f.get('site'))) for f in infra[:3])
+        res.infra_failures = infra
+    elif hard or vr.get('encountered-vir-error'):
         res.status = 'undecided'
         res.reason = 'unsupported-construct or compile error: ' + ' | '.join(h['message'] for h in hard[:3])
         res.hard_errors = hard[:10]
